@@ -2,7 +2,8 @@
 Require Import Parser Printer.
 Require Lex.
 Require Import ParserRoundTrip ParserParens.
-Require LexCase.
+Require LexCase LexWs.
+Require Import Api.
 From Coq Require Import List String.
 Import ListNotations.
 
@@ -21,6 +22,24 @@ Theorem C09_redundant_parentheses_same_parse : forall (o : oracle) (t t' : qt), 
   parse_toks o "" (pr t ++ [eof]) = parse_toks o "" (pr t' ++ [eof]) /\ parse_toks o "" (pr t ++ [eof]) = PTree (want o t).
 Proof. exact same_parse_modulo_parens. Qed.
 
+(* whitespace, for ASCII inputs: LexWs.wsvar cl s s' says s' is s with the whitespace (space, tab, CR, LF) between and around
+   its tokens changed - a separator may grow, shrink, change its bytes, or appear where there was none; an existing one is
+   never removed entirely; a word ending in a dangling escape is excluded (known finding K14); what follows a lexical error is
+   unchanged. Then the token streams are equal, hence Parse gives the same tree or fails on both.
+   Oracle fact: the four whitespace runes are not letters or digits. Non-ASCII input: decided per case by C09_check. *)
+Theorem C09_whitespace_same_tokens : forall cl : Lex.classes, (forall r, Lex.is_space r = true -> Lex.is_alnum cl r = false) ->
+  forall s s' : Lex.bytes, LexWs.wsvar cl s s' -> LexWs.asc s -> LexWs.asc s' -> Lex.lex cl s' = Lex.lex cl s.
+Proof. exact LexWs.lex_ws. Qed.
+
+Theorem C09_whitespace_same_parse : forall (o : oracle) (cl : Lex.classes), (forall r, Lex.is_space r = true -> Lex.is_alnum cl r = false) ->
+  forall (df s s' : string), LexWs.wsvar cl (list_ascii_of_string s) (list_ascii_of_string s') ->
+  LexWs.asc (list_ascii_of_string s) -> LexWs.asc (list_ascii_of_string s') -> Api.parse o cl df s' = Api.parse o cl df s.
+Proof.
+  intros o cl Hws df s s' W A A'. unfold Api.parse, Api.lex_tokens. rewrite (LexWs.lex_ws cl Hws _ _ W A A'). reflexivity.
+Qed.
+
 Print Assumptions C09_keyword_case.
+Print Assumptions C09_whitespace_same_tokens.
+Print Assumptions C09_whitespace_same_parse.
 Print Assumptions C09_redundant_parentheses_same_parse.
 Print Assumptions C09_redundant_parentheses.
